@@ -100,20 +100,49 @@ func checkMTCP(p *core.Program, r *core.Report) {
 		r.Check(okStore && okNext, fmt.Sprintf("mtcp/%s/step#%d:%s", fname(send), i+1, strings.TrimPrefix(s.name, cbor+".")), "each fallible step's error is stored into the named result and ends the send; the next step runs only after success", p.Pos(c.Pos()), "", fmt.Sprintf("error propagated: %v, next step guarded: %v", okStore, okNext))
 	}
 	// framing: header length = len of the marshalled buffer; payload = that buffer; probe = 0 on raw conn
-	if len(steps) >= 5 {
-		marshal, hdr, payload, flush, probe := steps[0].call, steps[1].call, steps[2].call, steps[3].call, steps[4].call
-		buf := core.Strip(core.CallArgs(marshal)[1])
-		okHdr := false
-		if lc, ok := core.Strip(core.CallArgs(hdr)[0]).(*ssa.Call); ok && core.CalleeName(lc) == "bytes.Buffer.Len" && core.CallRecv(lc) == buf {
-			okHdr = true
+	{
+		// the roles are identified by callee and argument shape, not by position
+		var marshal, hdr, payload, flush, probe ssa.CallInstruction
+		for _, s := range steps {
+			switch s.name {
+			case cbor + ".Marshal":
+				marshal = s.call
+			case "bytes.Buffer.WriteTo":
+				payload = s.call
+			case "bufio.Writer.Flush":
+				flush = s.call
+			case cbor + ".WriteByteStringLen":
+				if k, isC := core.ConstInt(core.CallArgs(s.call)[0]); isC && k == 0 {
+					probe = s.call
+				} else {
+					hdr = s.call
+				}
+			}
 		}
-		okPayload := core.CallRecv(payload) == buf && core.Strip(core.CallArgs(payload)[0]) == core.Strip(core.CallArgs(hdr)[1])
-		okBundle := core.TypeIs(core.Strip(core.CallArgs(marshal)[0]).Type(), bp7, "Bundle")
-		k, isC := core.ConstInt(core.CallArgs(probe)[0])
-		okProbe := isC && k == 0 && pathEndsWith(core.Strip(core.CallArgs(probe)[1]), "conn")
-		okFlush := core.CallRecv(flush) == core.Strip(core.CallArgs(hdr)[1])
-		r.Check(okHdr && okPayload && okBundle, "mtcp/"+fname(send)+"/frame", "a frame is a byte-string header announcing exactly the length of the serialised bundle, followed by those bytes", p.Pos(hdr.Pos()), "", fmt.Sprintf("header=len(buffer): %v, payload is that buffer on the same writer: %v, buffer holds the bundle: %v", okHdr, okPayload, okBundle))
-		r.Check(okFlush && okProbe, "mtcp/"+fname(send)+"/probe", "the frame is flushed and followed by a zero-length probe header written to the unbuffered connection (a broken connection surfaces as an error of this send)", p.Pos(probe.Pos()), "", fmt.Sprintf("flush of the frame writer: %v, probe 0 on conn: %v", okFlush, okProbe))
+		if marshal == nil || hdr == nil || payload == nil {
+			r.Fail("mtcp/"+fname(send)+"/frame", "a frame is a byte-string header announcing exactly the length of the serialised bundle, followed by those bytes", p.Pos(send.Pos()), "marshal / header / payload step not found")
+		} else {
+			buf := core.Strip(core.CallArgs(marshal)[1])
+			okHdr := false
+			if lc, ok := core.Strip(core.CallArgs(hdr)[0]).(*ssa.Call); ok && core.CalleeName(lc) == "bytes.Buffer.Len" && core.CallRecv(lc) == buf {
+				okHdr = true
+			}
+			okPayload := core.CallRecv(payload) == buf && core.Strip(core.CallArgs(payload)[0]) == core.Strip(core.CallArgs(hdr)[1])
+			okBundle := core.TypeIs(core.Strip(core.CallArgs(marshal)[0]).Type(), bp7, "Bundle")
+			okOrder := core.MustPassBefore(hdr, func(i ssa.Instruction) bool { return i == marshal.(ssa.Instruction) }) &&
+				core.MustPassBefore(payload, func(i ssa.Instruction) bool { return i == hdr.(ssa.Instruction) })
+			r.Check(okHdr && okPayload && okBundle && okOrder, "mtcp/"+fname(send)+"/frame", "a frame is a byte-string header announcing exactly the length of the serialised bundle, followed by those bytes", p.Pos(hdr.Pos()), "", fmt.Sprintf("header=len(buffer): %v, payload is that buffer on the same writer: %v, buffer holds the bundle: %v, order marshal<header<payload: %v", okHdr, okPayload, okBundle, okOrder))
+		}
+		probeRule := "the frame is flushed and then followed by a zero-length probe header written to the unbuffered connection in a write of its own (the first write to a connection the peer has closed succeeds, only the next one fails: the probe is what turns a dead peer into an error of this send)"
+		if flush == nil || probe == nil || hdr == nil || payload == nil {
+			r.Fail("mtcp/"+fname(send)+"/probe", probeRule, p.Pos(send.Pos()), "flush or probe step not found")
+		} else {
+			okFlush := core.CallRecv(flush) == core.Strip(core.CallArgs(hdr)[1]) &&
+				core.MustPassBefore(flush, func(i ssa.Instruction) bool { return i == payload.(ssa.Instruction) })
+			okProbe := pathEndsWith(core.Strip(core.CallArgs(probe)[1]), "conn")
+			okAfter := core.MustPassBefore(probe, func(i ssa.Instruction) bool { return i == flush.(ssa.Instruction) })
+			r.Check(okFlush && okProbe && okAfter, "mtcp/"+fname(send)+"/probe", probeRule, p.Pos(probe.Pos()), "", fmt.Sprintf("flush of the frame writer after the payload: %v, probe written to conn itself: %v, probe after the flush: %v", okFlush, okProbe, okAfter))
+		}
 	}
 	// defers before first write; the reporting closure tests err
 	var defers []*ssa.Defer
